@@ -5,6 +5,7 @@ CONSTANT Prog <- MCProg
 CONSTANT Lines <- MCLines
 INVARIANT TypeOK
 INVARIANT NoLostWakeup
+INVARIANT ContinueReleases
 INVARIANT ReportedIsSuspended
 INVARIANT BreakpointsSuspend
 PROPERTY StopReleasesAll
